@@ -12,11 +12,9 @@ import (
 	"fmt"
 	"io"
 	"math/rand"
-	"net"
 	"os"
 	"os/exec"
 	"strings"
-	"sync"
 	"time"
 
 	tls "github.com/refraction-networking/utls"
@@ -74,6 +72,7 @@ type interopObs struct {
 }
 
 type scan struct {
+	Label     string              `json:"label"` // default | weak | weak-after-use | weak-twice
 	Weak      bool                `json:"weak"`
 	Table     []tls.VerifSuite    `json:"table"`
 	Supported map[uint16][]uint16 `json:"supported"` // version -> ids with non-nil result
@@ -82,51 +81,6 @@ type scan struct {
 }
 
 var versions = []uint16{tls.VersionTLS10, tls.VersionTLS11, tls.VersionTLS12}
-
-// recConn records everything written to the underlying connection.
-type recConn struct {
-	net.Conn
-	mu  sync.Mutex
-	buf bytes.Buffer
-}
-
-func (r *recConn) Write(b []byte) (int, error) {
-	r.mu.Lock()
-	r.buf.Write(b)
-	r.mu.Unlock()
-	return r.Conn.Write(b)
-}
-func (r *recConn) take() []byte {
-	r.mu.Lock()
-	defer r.mu.Unlock()
-	b := append([]byte(nil), r.buf.Bytes()...)
-	r.buf.Reset()
-	return b
-}
-
-func tcpPair() (net.Conn, net.Conn, error) {
-	ln, err := net.Listen("tcp", "127.0.0.1:0")
-	if err != nil {
-		return nil, nil, err
-	}
-	defer ln.Close()
-	type res struct {
-		c   net.Conn
-		err error
-	}
-	ch := make(chan res, 1)
-	go func() { c, err := ln.Accept(); ch <- res{c, err} }()
-	a, err := net.Dial("tcp", ln.Addr().String())
-	if err != nil {
-		return nil, nil, err
-	}
-	r := <-ch
-	if r.err != nil {
-		a.Close()
-		return nil, nil, r.err
-	}
-	return a, r.c, nil
-}
 
 func obsHalf(h tls.VerifHalf) halfObs {
 	return halfObs{Kind: h.Kind, Dec: h.IsDecrypter, Seq: h.Seq, Mac: h.HasMac, Vers: h.Version, TName: h.TypeName}
@@ -199,12 +153,9 @@ func sizesFor(tier string, rng *rand.Rand) []int {
 	return s
 }
 
-func doScan(weak bool, seed int64, tier string) scan {
-	if weak {
-		tls.EnableWeakCiphers()
-	}
+func doScan(label string, weak bool, seed int64, tier string, interop bool) scan {
 	rng := rand.New(rand.NewSource(seed*2 + 1))
-	sc := scan{Weak: weak, Table: tls.VerifCipherSuiteTable(), Supported: map[uint16][]uint16{}}
+	sc := scan{Label: label, Weak: weak, Table: tls.VerifCipherSuiteTable(), Supported: map[uint16][]uint16{}}
 	if tier == "table" {
 		return sc
 	}
@@ -238,6 +189,9 @@ func doScan(weak bool, seed int64, tier string) scan {
 	}
 	// interop for every supported suite x version
 	for _, v := range versions {
+		if !interop {
+			break
+		}
 		for _, id := range sc.Supported[v] {
 			row := flagOf[id]
 			io := interopObs{Version: v, Suite: id, ValidFor: row.Flags&tls.VerifSuiteTLS12 == 0 || v == tls.VersionTLS12}
@@ -268,34 +222,58 @@ func doScan(weak bool, seed int64, tier string) scan {
 	return sc
 }
 
+// childMain runs one ordering of the process-global state:
+//
+//	mode 1: EnableWeakCiphers first, then everything (fresh process)
+//	mode 2: everything on the default table (suite lookups, forged connections, one real handshake),
+//	        THEN EnableWeakCiphers and everything again, then EnableWeakCiphers a second time and the
+//	        nil/non-nil sweep once more
+//	mode 1 with tier "table": only the table (translator)
 func childMain() {
-	weak := os.Args[2] == "1"
+	mode := os.Args[2]
 	var seed int64
 	fmt.Sscan(os.Args[3], &seed)
-	sc := doScan(weak, seed, os.Args[4])
-	json.NewEncoder(os.Stdout).Encode(sc)
+	tier := os.Args[4]
+	var scans []scan
+	if mode == "1" {
+		tls.EnableWeakCiphers()
+		scans = append(scans, doScan("weak", true, seed, tier, true))
+	} else {
+		scans = append(scans, doScan("default", false, seed, tier, true))
+		hs := ""
+		if p, err := handshakePair(tls.VersionTLS12, tls.TLS_ECDHE_ECDSA_WITH_AES_128_GCM_SHA256, newTestCerts(), false); err != nil {
+			hs = err.Error()
+		} else {
+			p.close()
+		}
+		tls.EnableWeakCiphers()
+		sc := doScan("weak-after-use", true, seed+1, tier, true)
+		if hs != "" {
+			sc.Panics = append(sc.Panics, "real handshake before EnableWeakCiphers: "+hs)
+		}
+		scans = append(scans, sc)
+		tls.EnableWeakCiphers()
+		scans = append(scans, doScan("weak-twice", true, seed+2, tier, false))
+	}
+	json.NewEncoder(os.Stdout).Encode(scans)
 }
 
-func runChild(weak bool, seed int64, tier string) (scan, error) {
+func runChild(mode string, seed int64, tier string) ([]scan, error) {
 	exe, err := os.Executable()
 	if err != nil {
-		return scan{}, err
+		return nil, err
 	}
-	w := "0"
-	if weak {
-		w = "1"
-	}
-	cmd := exec.Command(exe, "child", w, fmt.Sprint(seed), tier)
+	cmd := exec.Command(exe, "child", mode, fmt.Sprint(seed), tier)
 	cmd.Stderr = os.Stderr
 	out, err := cmd.Output()
 	if err != nil {
-		return scan{}, fmt.Errorf("child (weak=%v): %v", weak, err)
+		return nil, fmt.Errorf("child (mode %s): %v", mode, err)
 	}
-	var sc scan
-	if err := json.Unmarshal(out, &sc); err != nil {
-		return scan{}, err
+	var scs []scan
+	if err := json.Unmarshal(out, &scs); err != nil {
+		return nil, err
 	}
-	return sc, nil
+	return scs, nil
 }
 
 // ---------- Coq emitters ----------
@@ -360,7 +338,7 @@ func publicSuites(weak bool) map[uint16]bool {
 
 func emit(c *vh.Ctx, sc scan) {
 	w := vh.Bool(sc.Weak)
-	wk := map[bool]string{false: "default", true: "weak"}[sc.Weak]
+	wk := sc.Label
 	// 1. table drift: the snapshot in Gen/Suites.v must equal the table in the code
 	c.Case("table", fmt.Sprintf("(CTable %s %s)", w, tableTerm(sc.Table)), "table/"+wk, len(sc.Table) > 0,
 		map[string]any{"table": wk, "rows": len(sc.Table)})
@@ -440,23 +418,26 @@ var seenKind = map[string]bool{}
 
 func run(c *vh.Ctx) {
 	type res struct {
-		sc  scan
+		scs []scan
 		err error
 	}
-	chs := map[bool]chan res{false: make(chan res, 1), true: make(chan res, 1)}
-	for _, weak := range []bool{false, true} {
-		go func(weak bool) { sc, err := runChild(weak, c.Seed, c.Tier); chs[weak] <- res{sc, err} }(weak)
+	modes := []string{"2", "1"}
+	chs := map[string]chan res{}
+	for _, m := range modes {
+		chs[m] = make(chan res, 1)
+		go func(m string) { scs, err := runChild(m, c.Seed, c.Tier); chs[m] <- res{scs, err} }(m)
 	}
-	for _, weak := range []bool{false, true} {
-		r := <-chs[weak]
-		sc, err := r.sc, r.err
-		if err != nil {
-			c.Fail("runner/child", err.Error(), nil, nil, nil)
+	for _, m := range modes {
+		r := <-chs[m]
+		if r.err != nil {
+			c.Fail("runner/child", r.err.Error(), nil, nil, nil)
 			continue
 		}
-		emit(c, sc)
-		c.Extra[fmt.Sprintf("suites_%v", weak)] = len(sc.Table)
-		c.Extra[fmt.Sprintf("interops_%v", weak)] = len(sc.Interops)
+		for _, sc := range r.scs {
+			emit(c, sc)
+			c.Extra["suites_"+sc.Label] = len(sc.Table)
+			c.Extra["interops_"+sc.Label] = len(sc.Interops)
+		}
 	}
 }
 
@@ -503,19 +484,11 @@ func runChildTable(weak bool) ([]tls.VerifSuite, error) {
 	if !weak {
 		return tls.VerifCipherSuiteTable(), nil
 	}
-	exe, err := os.Executable()
-	if err != nil {
-		return nil, err
+	scs, err := runChild("1", 0, "table")
+	if err != nil || len(scs) == 0 {
+		return nil, fmt.Errorf("weak table: %v", err)
 	}
-	out, err := exec.Command(exe, "child", "1", "0", "table").Output()
-	if err != nil {
-		return nil, err
-	}
-	var sc scan
-	if err := json.Unmarshal(out, &sc); err != nil {
-		return nil, err
-	}
-	return sc.Table, nil
+	return scs[0].Table, nil
 }
 
 var _ = binary.BigEndian
